@@ -145,7 +145,7 @@ func TestC08(t *testing.T) {
 		}
 		jobs := buildJobs(rt, c, f.Root, progRoot, plan, o, cs)
 		c.Sample(sampleOf(cs, jobs))
-		return &RunCase{Case: cs, Jobs: jobs}
+		return &RunCase{Case: cs, Jobs: jobs, Model: modelIfSingle(cs, f)}
 	}, stdJudge)
 }
 
